@@ -10,7 +10,8 @@ class Prop:
     PROPS_FILE = 'props/C06.v'
     PROPS_FILES = ['props/C06.v', 'props/C06node.v']
     SUITES = [HandlerSuite(), InvalidationSuite(), FeedSuite(), CrashFeedSuite(),
-              NodeSuite(evals={'mismatches': 'mismatches', 'spec_violations': 'spec_violations_c06n'},
+              NodeSuite(evals={'mismatches': 'mismatches', 'spec_violations': 'spec_violations_c06n',
+                               'known:F9b-lost-at-reelection': 'known_c06_loss_at_reelection'},
                         quick=(500, 60), thorough=(3000, 150))]
     RULE = ('failurehandler: random sequences (<= 30 quick / <= 120 thorough operations) of add_job / add_default_job / '
             'trigger_jobs / abort on the real RunningFailureHandler over 1-3 real applications x 1-5 real processes '
